@@ -512,6 +512,22 @@ theorem relspecStep_frame {K : List Str} {e0 e : Elem} (F : Frame K e0 e) {k : S
     · exact F
   · exact F
 
+theorem useWriteBack_frame {K : List Str} (hx : ['x'] ∈ K) (hy : ['y'] ∈ K) {e0 e e' : Elem}
+    {o : Option (Rat × Rat)} (F : Frame K e0 e) (h : e.useWriteBack o = .ok e') : Frame K e0 e' := by
+  unfold Elem.useWriteBack at h
+  split at h
+  · have h := pure_ok h; subst h; exact F
+  · obtain ⟨ex, h1, h⟩ := bind_ok h
+    have Fx : Frame K e0 ex := by
+      split at h1
+      · obtain ⟨n, -, h1⟩ := bind_ok h1
+        have h1 := pure_ok h1; subst h1; exact F.set hx _
+      · have h1 := pure_ok h1; subst h1; exact F
+    split at h
+    · obtain ⟨n, -, h⟩ := bind_ok h
+      have h := pure_ok h; subst h; exact Fx.set hy _
+    · have h := pure_ok h; subst h; exact Fx
+
 /-- `resolve_position` after `handle_containment` (verbatim the rest of `Elem.resolvePosition`) -/
 def resolveTail (c : Ctx) (e : Elem) : Except Err Elem := do
   let e := e.expandCompoundSize
@@ -531,23 +547,8 @@ def resolveTail (c : Ctx) (e : Elem) : Except Err Elem := do
       | some d => e.setAttr ['d'] (Elem.expandRelspec c d)
       | none => e
     else e)
-  let p := e.toPosition
-  let p ← (if e.name == cs!"use" then
-      match (e.getAttr cs!"href").orElse (fun _ => e.getAttr cs!"xlink:href") with
-      | some href => do
-        let r ← parseElref href
-        match c.get r with
-        | none => throw Err.reference
-        | some el =>
-          let t ← c.target (c.elems.length + 1) el
-          match ← t.size c with
-          | some (w, h) =>
-            let p := { p with width := some w, height := some h }
-            pure (if el.name == cs!"circle" || el.name == cs!"ellipse" then p.translate (w / 4) (h / 4) else p)
-          | none => pure p
-      | none => pure p
-    else pure p)
-  pure (Elem.setPositionAttrs p e)
+  let po ← Elem.usePosition c e e.toPosition
+  Elem.useWriteBack (Elem.setPositionAttrs po.1 e) po.2
 
 theorem resolvePosition_eq (c : Ctx) (e : Elem) :
     e.resolvePosition c = e.handleContainment c >>= resolveTail c := rfl
@@ -581,9 +582,8 @@ theorem resolveTail_frame {K : List Str} (hK : ∀ k ∈ laterKeys, k ∈ K) (c 
   obtain ⟨e8, h8, h⟩ := bind_ok h
   have F8 := evalRelAttributes_frame (sub (by decide)) c F7 h8
   simp only [] at h
-  obtain ⟨p, -, h⟩ := bind_ok h
-  have h := pure_ok h
-  subst h
+  obtain ⟨po, -, h⟩ := bind_ok h
+  refine useWriteBack_frame (hK _ (by decide)) (hK _ (by decide)) ?_ h
   apply setPositionAttrs_frame (sub (by decide))
   exact relspecStep_frame (relspecStep_frame F8 (k := cs!"points") (hK _ (by decide)) _ _)
     (k := ['d']) (hK _ (by decide)) _ _
